@@ -32,7 +32,7 @@ func (c04) Meta() fw.Meta {
 			"clock domain: maxRetention + 2*maxStep <= now and now + 2*maxStep < 2^32",
 			"the Fetch() convenience wrapper is driven through the library's settable clock whispertool.Now (one worker process = one clock)",
 		},
-		Obligations: []string{"shape_checks", "absent_future", "absent_too_old", "error_from_after_until", "error_bad_id", "degenerate_extended", "clamped_from", "clamped_until", "best_selected_coarser", "never_written_checked", "written_checked", "wrapper_fetch_checked", "reader_clock_behind_passes", "ticking_default_clock_fetches", "remote_fetches", "concurrent_noise_requests_served"},
+		Obligations: []string{"shape_checks", "absent_future", "absent_too_old", "error_from_after_until", "error_bad_id", "degenerate_extended", "clamped_from", "clamped_until", "best_selected_coarser", "never_written_checked", "written_checked", "wrapper_fetch_checked", "reader_clock_behind_passes", "ticking_default_clock_fetches", "remote_fetches", "concurrent_noise_requests_served", "remote_fetches_in_a_non_utc_zone"},
 	}
 }
 
@@ -398,6 +398,14 @@ func c04Remote(c *fw.Ctx, l model.Layout, now int64) {
 	}
 	if server1PDelayed(c) {
 		c.Count("server_socket_writes_delayed", 1)
+	}
+	// the client's local time zone is an environment condition: what it sends and gets must not depend on it
+	zones := []*time.Location{time.UTC, time.FixedZone("JST", 9*3600), time.FixedZone("EST", -5*3600), time.FixedZone("IST", 5*3600+1800)}
+	oldLocal := time.Local
+	time.Local = zones[(c.Index/6)%len(zones)]
+	defer func() { time.Local = oldLocal }()
+	if time.Local != time.UTC {
+		c.Count("remote_fetches_in_a_non_utc_zone", 1)
 	}
 	withServerNoise(c, u, rels[:2], func() {
 		for j := 0; j < 24 && !c.Violated(); j++ {
